@@ -209,6 +209,19 @@ def seq_case(c):
             W.file(TD + '/files/a_2222', 'orphan payload\n')
             W.file(TD + '/info/a_3333.trashinfo', '[Trash Info]\nPath=/elsewhere\nDeletionDate=2017-01-01T00:00:00\n')
             world.build(sb.root, [W.nodes[p] for p in W.order if p.startswith(TD + '/files/') or p.startswith(TD + '/info/')])
+        if c.get('trunc_orphan'):
+            nm = c['name']
+            for suf in ('_1', '_2'):
+                t = nm[:len(nm) - len(suf + '.trashinfo')] + suf
+                if len(t + '.trashinfo') > 255:
+                    continue
+                W = world.World()
+                W.nodes, W.order = {}, []
+                if c['trunc_orphan'] == 'file':
+                    W.file(TD + '/files/' + t, 'orphan at the truncated name\n')
+                else:
+                    W.dir(TD + '/files/' + t).file(TD + '/files/' + t + '/keep', 'orphan dir at the truncated name\n')
+                world.build(sb.root, [W.nodes[p] for p in W.order if p.startswith(TD + '/files/')])
         rnd = None
         if c.get('answers') is not None:
             m = {'pair': 1111, 'payload': 2222, 'info': 3333}
@@ -237,7 +250,9 @@ def seq_cases(tier):
     out = [c for c in out if len(c['hist']) == depth]
     for ln in (244, 245, 246, 250, 255):
         for h in itertools.product(range(3), repeat=3):
-            out.append({'init': 'empty', 'hist': list(h), 'name': 'N' * ln})      # the ENAMETOOLONG truncation branch, colliding
+            for trunc in (None, 'file', 'dir'):
+                # the ENAMETOOLONG truncation branch, colliding; optionally an orphan payload sits at exactly the truncated name
+                out.append({'init': 'empty', 'hist': list(h), 'name': 'N' * ln, 'trunc_orphan': trunc})
     for ans in itertools.product(['pair', 'payload', 'info', 'fresh'], repeat=4):
         out.append({'init': 'empty', 'hist': [0], 'hundred': True, 'answers': list(ans)})
         out.append({'init': 'empty', 'hist': [1], 'hundred': True, 'answers': list(ans)})
